@@ -90,7 +90,7 @@ theorem codegen_correct_cg (lv : Nat) (p : Program) (t : Tables) (hp : CgProg lv
     intro i hi
     have hi' : 0 < i ∧ i < AL.2.length + 1 := hi
     rw [ainv.len, hb1]; omega
-  have henv : EnvOK cx ({ labels := AL.2 } : Src.Env) := ⟨rfl, rfl, fun n i h => by
+  have henv : EnvOK cx ({ labels := AL.2 } : Src.Env) := ⟨fun n ps => (envOK_empty cx rfl).ev n ps, rfl, fun n i h => by
     have := ainv.node n i h
     show 0 < i ∧ i < AL.2.length + 1
     rw [hb1] at this; omega⟩
@@ -116,7 +116,7 @@ theorem codegen_correct_cg (lv : Nat) (p : Program) (t : Tables) (hp : CgProg lv
     rfl
   -- the claim about all user labels of the program
   let C : Nat → Nat → Prop := fun m jj => ∀ n id, n ∈ cx.defs → cx.named.lookup n = some id →
-    ∃ i, AL.2.lookup n = some i ∧ R2 cx m jj (target cx.rs id) i
+    ∃ i, AL.2.lookup n = some i ∧ R2 cx m jj (target cx.rs (cx.cp.σ id)) i
   -- one routine, given the claim at a level
   have routineAt : ∀ (j' : Nat) (r' : Routine), p.routines[j']? = some r' → ∀ (bj : Src.B),
       Grow cx.Z (Src.trStmts fuel [] { labels := AL.2 } (toSrcStmts r'.body) 0 bj).1
@@ -133,24 +133,24 @@ theorem codegen_correct_cg (lv : Nat) (p : Program) (t : Tables) (hp : CgProg lv
       refine ⟨fun i hz => Nat.lt_of_lt_of_le (hZ i hz) hst.len, fun i h1 h2 => ?_⟩
       rw [hN]
       exact hfin.get (fun hz => by have := hZ i hz; have := hst.len; omega) h2
-    have hplaced : Placed cx.rs j' 0 ops := by
+    have hplaced : Placed cx.cp cx.rs j' 0 ops := by
+      refine Placed.of_exact ?_ piece.nonone
       rcases hshape with rfl | ⟨o, rfl⟩
       · exact ⟨[], [], by simpa using hits, rfl⟩
       · exact ⟨[], [.op ⟨o, Gen.op_dummy_end, []⟩], by simpa using hits, rfl⟩
     have hex : ExitsOK cx m jj s1 { labels := AL.2 } :=
-      ⟨fun cl bl rest h => (by rw [hl1] at h; cases h), fun e rest h => (by rw [hc1] at h; cases h), hC⟩
+      ⟨fun cl bl rest h => (by rw [hl1] at h; cases h), fun e rest h => (by rw [hc1] at h; cases h), hC, fun kr e h => by cases h⟩
     refine piece.full j' 0 hplaced rfl 0 bj hag m jj hex hn2 (fun _ => ?_)
     rcases hshape with rfl | ⟨o, rfl⟩
     · exact R2.halt (lab_end hits (by simp)) (nodeStep_of hN0)
-    · have hit : itemAt cx.rs ⟨j', 0 + ops.length⟩ = some (.op ⟨o, Gen.op_dummy_end, []⟩) := by
-        have hp' : Placed cx.rs j' 0 (ops ++ [LItem.op ⟨o, Gen.op_dummy_end, []⟩]) := ⟨[], [], by simpa using hits, rfl⟩
-        exact hp'.item (d := ops.length) (by simp)
+    · have hit : ItemC cx.cp cx.rs ⟨j', 0 + ops.length⟩ (.op ⟨o, Gen.op_dummy_end, []⟩) :=
+        ⟨_, cpRel_id _ (fun root e => by cases e), by show itemAt t2.ops _ = _; simp [itemAt, hits]⟩
       have hac : afterCtxL cx.rs ⟨j', 0 + ops.length⟩ = false := by
         by_cases hne : ops = []
         · subst hne; rfl
         · exact afterCtxL_after hplaced hne piece.last
-      have hstep := lab_op hit dummy_facts.1
-      simp only [dummy_facts.2.1, hac, Bool.not_false, Bool.and_self, if_true, dummy_facts.2.2] at hstep
+      have hstep := lab_op hit dummy_facts.1 (.inr rfl)
+      simp only [dummy_facts.2.1, hac, Bool.not_false, Bool.and_self, if_true, List.map_nil, dummy_facts.2.2] at hstep
       exact R2.halt hstep (nodeStep_of hN0)
   -- all labels, by induction on the level
   have hC : ∀ m jj, C m jj := by
@@ -161,7 +161,7 @@ theorem codegen_correct_cg (lv : Nat) (p : Program) (t : Tables) (hp : CgProg lv
     obtain ⟨i, hlk⟩ := Option.isSome_iff_exists.mp hcov
     obtain ⟨hi1, hi2, hph⟩ := ainv.node n i hlk
     have hiAL : i < (tbl AL.1).length := by rw [ainv.len]; exact hi2
-    have hlow : ∀ m' j', m' < m → R2 cx m' j' (target cx.rs id) i := by
+    have hlow : ∀ m' j', m' < m → R2 cx m' j' (target cx.rs (cx.cp.σ id)) i := by
       intro m' j' hlt
       obtain ⟨i', h1, h2⟩ := lower m' j' hlt n id hn hid
       rw [hlk] at h1; cases h1; exact h2
@@ -191,7 +191,9 @@ theorem codegen_correct_cg (lv : Nat) (p : Program) (t : Tables) (hp : CgProg lv
         have : cx.named.lookup n' = some id := hid
         rw [hid'] at this; exact Option.some.inj this
       subst hidd
-      have htg : target cx.rs id' = P := target_of_item hlab hitem
+      have htg : target cx.rs (cx.cp.σ id') = P := by
+        obtain ⟨x', ⟨nm', rfl⟩, hit'⟩ := hitem
+        exact target_of_item hlab hit'
       have hNi : cx.N[i]? = some (.silent kn) := by rw [hN]; exact hkn
       refine ⟨i, hlk, EE_of_lower hlow, ?_⟩
       rw [htg]
